@@ -8,7 +8,8 @@ From Mage Require Import Base.Strs Model.Dupes Proof.Dupes_facts.
 From Coq Require Import Permutation.
 
 (* the property sentence: mage builds the package exactly when no two runnable names - targets,
-   namespace targets, imported targets (alias:receiver:name), alias keys - are equal ignoring case.
+   namespace targets, imported targets (alias:receiver:name; a package imported under several aliases has one
+   name per alias, the same (path, alias) pair written twice is one import), alias keys - are equal ignoring case.
    [wf_pkg]: function names are not empty (Go identifiers). *)
 Theorem C07_rejects_iff_collision : forall pk, wf_pkg pk ->
   (mage_accepts pk = true <-> NoDup (map lower (runnable_names pk))).
@@ -77,3 +78,15 @@ Example C07_nonvacuous :
   mage_check true ex_imp = Some (ECase [["Go"; "GO"]]).
 Proof. exact nonvacuous_c07. Qed.
 Print Assumptions C07_nonvacuous.
+
+(* one package imported under two aliases, as a root import and with one pair written twice is accepted and every
+   name runs the package's definition; the same package as a bare-tag import twice is rejected by the code
+   (the one definition is named twice) - see tools/notes/C07.md, "root import written twice" *)
+Example C07_nonvacuous_repeated_imports :
+  mage_accepts ex_multi = true /\ runnable_names ex_multi = ["Hello"; "dev:Build"; "ci:Build"; "Build"; "x"] /\
+  map (fun w => option_map fid (resolve ex_multi w)) ["ci:build"; "DEV:build"; "build"; "X"] =
+    [Some "e/tools.Build"; Some "e/tools.Build"; Some "e/tools.Build"; Some "e/tools.Build"] /\
+  mage_check true ex_root2 = Some (EMulti [("build", [{| f_alias := ""; f_path := "e/tools"; f_recv := ""; f_name := "Build" |};
+                                                      {| f_alias := ""; f_path := "e/tools"; f_recv := ""; f_name := "Build" |}])]).
+Proof. exact nonvacuous_repeated_imports. Qed.
+Print Assumptions C07_nonvacuous_repeated_imports.
